@@ -188,6 +188,8 @@ func (r *Run) flush() {
 			r.Lines = append(r.Lines, "HTTP\t"+e.C+"\t"+fmt.Sprintf("%x", e.Subj))
 		case "httpresp":
 			r.Lines = append(r.Lines, "HTTPRESP\t"+e.C+"\t"+strconv.Itoa(e.N)+"\t"+fmt.Sprintf("%x", e.Subj)+"\t"+fmt.Sprintf("%x", r.W.Anon(e.Text)))
+		case "stop":
+			r.Lines = append(r.Lines, "STOP\t"+e.Subj+"\t"+e.Text)
 		case "mqclose":
 			r.Lines = append(r.Lines, "MQCLOSE")
 		}
@@ -300,6 +302,8 @@ func (r *Run) Do(a Action) (ok bool) {
 			}
 		}
 		r.W.HTTP(a.Method, a.Subj, []byte(a.Text), h)
+	case "stop":
+		r.W.StopNow(a.Subj)
 	case "q":
 		r.flush()
 		r.Lines = append(r.Lines, a.Abs)
